@@ -17,7 +17,7 @@ RULE = sqlmon.RULE_HISTORIES + ' Worker messages are duplicated / late / stale b
 ASSUMPTIONS = sqlmon.COMMON_ASSUMPTIONS
 SHARDS = {'quick': 4, 'thorough': 16}
 TIMEOUT = {'quick': 900, 'thorough': 3600}
-FLOORS = {'scripted_stale_attempt_then_deactivation': 12, 'scripted_creating_parent_at_commit': 8, 'scripted_creating_parent_then_success': 5, 'fallbacks_to_ready_checked': 30, 'job_state_transitions': 300, 'job_state_edges': 8, 'duplicate_or_late_completions': 20, 'sql_routine:mark_job_complete': 100, 'histories_free_of_known_patterns': 50}
+FLOORS = {'scripted_racing_reports_second_session_committed_inside_the_first': 4, 'scripted_stale_attempt_then_deactivation': 8, 'scripted_creating_parent_at_commit': 8, 'scripted_creating_parent_then_success': 5, 'fallbacks_to_ready_checked': 30, 'job_state_transitions': 300, 'job_state_edges': 8, 'duplicate_or_late_completions': 20, 'sql_routine:mark_job_complete': 100, 'histories_free_of_known_patterns': 50}
 
 
 class Tallies(Monitor):
@@ -52,8 +52,11 @@ async def scripted(runner, w, fz, rng):
     user = 'alice'
     ud = userdata(user)
     fe = w.fe
-    if rng.random() < 0.4:
+    r0 = rng.random()
+    if r0 < 0.3:
         return await scripted_creating_parent(runner, w, fz, rng)
+    if r0 < 0.6:
+        return await scripted_racing_reports(runner, w, fz, rng)
     n = rng.choice([2, 2, 3])
     bid = await fe._create_batch({'billing_project': 'bp-a', 'token': 'c04s', 'n_jobs': n}, ud, w.db)
     fz.batches[bid] = {'user': user, 'token': 'c04s', 'groups': {0}, 'cancelled': set(), 'deleted': False}
@@ -88,6 +91,85 @@ async def scripted(runner, w, fz, rng):
     if j1['state'] == 'Running' and att2 is not None and att2['instance_name'] == B.name:
         ctx.count('scripted_stale_attempt_then_deactivation')
     await A.deactivate(rng.choice(['not_responding', 'preempted', 'terminated']), w.now_ms())  # judged by the edge monitor at this commit
+
+
+async def scripted_racing_reports(runner, w, fz, rng):
+    """directed prefix: two reports about one attempt race INSIDE the procedures.  The worker accepted job 1 but the driver's own
+    CALL schedule_job failed (the job is still Ready, the worker runs it); the worker's job_started report is being processed when
+    a second session commits for the same job - the worker's completion report, or the canceller marking it - at a point where the
+    first procedure holds no lock (minimysql preemption points: START TRANSACTION, and any statement reached with only non-locking
+    reads behind it).  Procedures that lock the jobs row with their first read offer no such point after START TRANSACTION; whatever
+    order results, the after-every-commit edge monitor and tallies must hold."""
+    import json
+
+    from batch.front_end.validate import validate_and_clean_jobs
+    from vf.world.oracles import View
+    from vf.world.world import userdata
+
+    ctx = runner.ctx
+    user = 'alice'
+    ud = userdata(user)
+    fe = w.fe
+    bid = await fe._create_batch({'billing_project': 'bp-a', 'token': 'c04r', 'n_jobs': 2}, ud, w.db)
+    fz.batches[bid] = {'user': user, 'token': 'c04r', 'groups': {0}, 'cancelled': set(), 'deleted': False}
+    u1, _, _ = await fe._create_batch_update(bid, 'c04r', 2, 0, user, w.db)
+    jobs = [{'job_id': i, 'process': {'type': 'docker', 'command': ['true'], 'image': 'u'}, 'resources': {'cpu': '1', 'memory': 'standard', 'storage': '1Gi'}} for i in (1, 2)]
+    validate_and_clean_jobs(jobs)
+    await fe._create_jobs(ud, jobs, bid, u1, w.fe_app)
+    await fe._commit_update(w.fe_app, bid, u1, user, w.db)
+    A = await w.create_instance('standard', cores=1)
+    saved = {k: fz.cfg.get(k) for k in ('worker_reject_p', 'fault_schedule_db_p', 'early_job_started_p', 'early_job_complete_p')}
+    fz.cfg.update({'worker_reject_p': 0, 'fault_schedule_db_p': 1.0, 'early_job_started_p': 0, 'early_job_complete_p': 0})
+    await w.pools['standard'].scheduler.schedule_loop_body()   # the worker accepts, the driver's CALL schedule_job fails
+    await fz._drain()
+    fz.cfg.update(saved)
+    fz.fail_next_schedule_db = False
+    fz.sync_attempts_from_db()
+    cand = [a for a in fz.attempts.values() if a['batch_id'] == bid and a.get('worker_accepted')]
+    v = View(w.engine)
+    if not cand or v.jobs[(bid, cand[0]['job_id'])]['state'] != 'Ready':
+        ctx.count('scripted_setup_incomplete')
+        return
+    a = cand[0]
+    jid, att = a['job_id'], a['attempt_id']
+    eng = w.engine
+    racer = rng.choice(['job_complete', 'job_complete', 'canceller'])
+    want = rng.choice([1, 2, 3, 3, 4])  # the k-th point at which mark_job_started holds no lock
+    st = {'ran': False, 'points': [], 'n': 0}
+    now = w.now_ms()
+
+    def preempt(conn, routine):
+        point = getattr(conn, 'preempt_point', None)
+        st['points'].append(point)
+        if st['ran'] or routine.name != 'mark_job_started':
+            return
+        st['n'] += 1
+        if st['n'] != want:
+            return
+        st['ran'] = f'lock-free point {want} ({point})'
+        c2 = eng.connect()
+        try:
+            if racer == 'job_complete':
+                c2.execute('CALL mark_job_complete(%s, %s, %s, %s, %s, %s, %s, %s, %s, %s);',
+                           (bid, jid, att, A.name, 'Success', json.dumps({'state': 'succeeded'}), now, now + 1, 'completed', now + 2))
+            else:
+                c2.execute('CALL mark_job_complete(%s, %s, %s, %s, %s, %s, %s, %s, %s, %s);',
+                           (bid, jid, None, None, 'Cancelled', None, None, None, 'cancelled', now + 2))
+        except Exception:
+            c2.rollback()
+    eng.preempt_hook = preempt
+    try:
+        await w.dm.job_started(fz._worker_request(A, {'status': {'batch_id': bid, 'job_id': jid, 'attempt_id': att, 'start_time': now, 'resources': []}}))
+    except Exception as e:
+        ctx.seen('scripted_racing_reports_errors', type(e).__name__)
+    finally:
+        eng.preempt_hook = None
+    ctx.count('scripted_racing_reports')
+    ctx.seen('scripted_racing_reports_preemption_points_offered', ','.join(sorted({str(p) for p in st['points']})))
+    ctx.seen('scripted_racing_reports_lock_free_points_in_mark_job_started', st['n'])
+    if st['ran']:
+        ctx.count('scripted_racing_reports_second_session_committed_inside_the_first')
+        ctx.seen('scripted_racing_reports_outcome', f'{racer} at {st["ran"]}: job is {View(w.engine).jobs[(bid, jid)]["state"]}')
 
 
 async def scripted_creating_parent(runner, w, fz, rng):
@@ -153,7 +235,7 @@ def run(ctx):
     p = Patterns()
     r = HistoryRunner(ctx, [p, sqlmon.EdgeMonitor(p, check_cancel=False), Tallies(p)], cfg={'weights': dict(sqlmon.WEIGHTS_RUN)},
                       n_ops=ctx.pick(15, 30), setup=scripted)
-    for i, rng in ctx.cases(ctx.pick(15, 100), 'scripted'):
+    for i, rng in ctx.cases(ctx.pick(30, 150), 'scripted'):
         res = r.run_case(i, rng)
         ops = res.get('ops', [])
         ctx.case(sample={'scripted-prefix+ops': ops[:30]}, key=('scripted', i, tuple(ops)), nontrivial=True)
